@@ -37,7 +37,11 @@ Theorem C05_gone_events : forall c s,
 Proof. intros. split; [intro; apply peer_drop_gone | apply own_drop_gone]. Qed.
 Print Assumptions C05_gone_events.
 
-(* at most one close frame is ever written and no frame of any kind (data, ping, pong, close) follows it *)
+(* at most one close frame is ever written and no frame of any kind (data, ping, pong, close) follows it.
+   Scope: writes that go straight to the transport.  The trickle queue of sync / chopped writes (send_queue, _trigger,
+   _send, _QUEUED_WRITE_DELAY) is NOT part of the model; for queued writes the same two statements are checked on the
+   real code only, by the property oracle over the send-queue family of harness/props/c05.py (all short sequences with
+   1..3 queued sends, sendClose variants and 10 us ticks). *)
 Theorem C05_one_close_frame : forall c evs,
   let log := snd (run c evs) in
   (length (filter is_closef log) <= 1)%nat /\
